@@ -2,7 +2,14 @@
 
 package bbolt
 
+import "go.etcd.io/bbolt/internal/common"
+
 // fdatasync flushes written data to a file descriptor.
 func fdatasync(db *DB) error {
+	if common.VerifEnabled {
+		if _, err := common.VerifIO(db, "sync", 0, nil); err != nil {
+			return err
+		}
+	}
 	return db.file.Sync()
 }
